@@ -1,6 +1,6 @@
 (* wire encoding of the C19 cases; exported functions are [x_*] : val -> val *)
 From Coq Require Import ZArith List Bool.
-From V Require Import Val Bytes C19PTree C19Sniffer C19Mux C19Conc.
+From V Require Import Val Bytes C19PTree C19Sniffer C19Mux C19Conc C19Framed.
 Import ListNotations.
 Open Scope Z_scope.
 
@@ -140,3 +140,28 @@ Definition x_C19_cloop_ok (v : val) : val :=
                                     (dec_dec (nthv 0 (snd ko))) (as_nat (nthv 1 (snd ko)))
                                     (as_int (nthv 2 (snd ko))) (as_bool (nthv 3 (snd ko))))
                  (combine (as_list (nthv 0 c)) (as_list obs))).
+
+(* ---- what the service-side reader makes of the connection.
+   case = (script) (scripted conn) or (stream cutsets pause) (real TCP, every cutset its
+   own connection); observation per connection = (decision ((method body) ...) code) *)
+Definition enc_view (v : bytes * bytes) : val := VL [VB (fst v); VB (snd v)].
+Definition dec_view (v : val) : bytes * bytes := (as_bytes (nthv 0 v), as_bytes (nthv 1 v)).
+Definition enc_mobs (o : decision * list (bytes * bytes) * Z) : val :=
+  let '(d, views, code) := o in VL [enc_dec d; vlist enc_view views; VI code].
+Definition ok_mobs (sc : script) (o : val) : bool :=
+  errfree sc &&
+  ok_msgs_case clen_simple prod_tables sc (dec_dec (nthv 0 o)) (map dec_view (as_list (nthv 1 o))) (as_int (nthv 2 o)).
+
+Definition x_C19_msgs_run (c : val) : val := enc_mobs (msgs_run clen_simple prod_tables (dec_script (nthv 0 c))).
+Definition x_C19_msgs_ok (v : val) : val := vbool (ok_mobs (dec_script (nthv 0 (nthv 0 v))) (nthv 1 v)).
+
+(* real TCP: the model's answer does not depend on the cuts (C19_service_reads_are_segmentation_independent),
+   so it is computed once on the unsegmented stream and repeated *)
+Definition one_item (st : bytes) : script := [{| it_data := st; it_err := 0 |}].
+Definition x_C19_lmsgs_run (c : val) : val :=
+  let o := enc_mobs (msgs_run clen_simple prod_tables (one_item (as_bytes (nthv 0 c)))) in
+  VL (map (fun _ => o) (as_list (nthv 1 c))).
+Definition x_C19_lmsgs_ok (v : val) : val :=
+  let c := nthv 0 v in let obs := as_list (nthv 1 v) in
+  vbool (Nat.eqb (length obs) (length (as_list (nthv 1 c))) &&
+         forallb (ok_mobs (one_item (as_bytes (nthv 0 c)))) obs).
